@@ -7,8 +7,16 @@
 //
 // One inductive step of every SentJournal operation from an arbitrary valid pre-state:
 //   * N packet records (N concrete per harness instance) of symbolic kind
-//     {Skipped, Flighting, Retransmitted, Acked} with symbolic nframes 0..=2 (Skipped: 0) at a
-//     symbolic 62-bit window offset;
+//     {Skipped, Flighting, Retransmitted, Acked} with symbolic nframes 0..=2 (Skipped: 0);
+//   * MEASURED: a symbolic window offset or a symbolic packet number turns every record access
+//     (`IndexDeque::get_mut(pn)` -> `&mut deque[(pn - offset) as usize]`) into a read/write through a
+//     pointer with a symbolic offset into the 400-byte array of 64-byte SentPktState cells, which
+//     CBMC lowers bytewise (1.2 M variables for ONE record, 4.9 M for two, no verdict in 300 s for
+//     three). The window offset and the acknowledged / lost packet number are therefore CONCRETE
+//     per harness instance (one instance per position: below / each record / beyond the window);
+//     the offset arithmetic itself (contain / get / get_mut / enumerate / advance for every 62-bit
+//     offset and index) is the subject of c10_index_deque_* on u64 elements. One instance
+//     (c10_sent_ack_step_sym_n1) keeps offset and packet number fully symbolic at one record;
 //   * the flat frame queue holds one tag per recorded frame. Tags are the identity sequence
 //     (the frame at queue position i has tag TAG0 + i), so "the frames of packet pn" is the tag
 //     interval [TAG0 + start(pn), TAG0 + start(pn) + nframes(pn)) with start(pn) = sum of nframes of
@@ -30,12 +38,6 @@ fn mk_instant(secs: u64) -> Instant {
 
 const T_MAX: u64 = 1u64 << 40;
 
-fn any_instant() -> Instant {
-    let s: u64 = kani::any();
-    kani::assume(s < T_MAX);
-    mk_instant(s)
-}
-
 static mut NOW_SECS: u64 = 0;
 
 /// Stub for tokio::time::Instant::now: an arbitrary instant chosen by the harness.
@@ -43,12 +45,6 @@ fn stub_now() -> Instant {
     mk_instant(unsafe { NOW_SECS })
 }
 
-fn set_any_now() -> Instant {
-    let s: u64 = kani::any();
-    kani::assume(s < T_MAX);
-    unsafe { NOW_SECS = s };
-    mk_instant(s)
-}
 
 // tracing stubs (NOTES-tracing.md): should_remain_after logs through tracing::trace!
 fn stub_tr_interest(_c: &'static tracing::callsite::DefaultCallsite) -> tracing::subscriber::Interest {
@@ -64,20 +60,39 @@ const SKIPPED: u8 = 0;
 const FLIGHTING: u8 = 1;
 const RETRANS: u8 = 2;
 const ACKED: u8 = 3;
+/// "any kind" marker for `any_journal`
+const ANY: u8 = 9;
 
 const TAG0: u64 = 1000;
 const M62: u64 = 1u64 << 62;
 /// frames per packet in the pre-state
 const MAXF: usize = 2;
+/// the concrete window offset of most instances (the first record is packet number 61)
+const OFF: u64 = 61;
 
 type J = SentJournal<u64>;
 
+/// Harness-side description of the pre-state (small scalar arrays: cheap to index symbolically).
 #[derive(Clone, Copy)]
-struct Rec {
-    kind: u8,
-    nframes: usize,
-    expire: Instant,
-    retran: Instant,
+struct Pre<const N: usize> {
+    kinds: [u8; N],
+    nfr: [usize; N],
+    /// queue position of the first frame of record i
+    starts: [usize; N],
+    total: usize,
+    expire: [u64; N],
+    retran: [u64; N],
+}
+
+impl<const N: usize> Pre<N> {
+    /// queue position of the first frame of record i (i == N: the queue length)
+    fn start_of(&self, i: usize) -> usize {
+        if i < N { self.starts[i] } else { self.total }
+    }
+    /// number of frames an ACK / a loss report of record i has to hand out
+    fn live_frames(&self, i: usize) -> usize {
+        if self.kinds[i] == FLIGHTING || self.kinds[i] == RETRANS { self.nfr[i] } else { 0 }
+    }
 }
 
 fn kind_of(s: &SentPktState) -> u8 {
@@ -89,77 +104,109 @@ fn kind_of(s: &SentPktState) -> u8 {
     }
 }
 
-fn any_rec() -> (SentPktState, Rec) {
-    let kind: u8 = kani::any();
-    kani::assume(kind < 4);
-    let nframes: usize = kani::any();
-    kani::assume(nframes <= MAXF);
-    let sent_time = any_instant();
-    let expire_time = any_instant();
-    let retran_time = any_instant();
-    let (st, nf) = match kind {
-        SKIPPED => (SentPktState::Skipped, 0),
-        FLIGHTING => (SentPktState::Flighting { nframes, sent_time, expire_time, retran_time }, nframes),
-        RETRANS => (SentPktState::Retransmitted { nframes, sent_time, expire_time }, nframes),
-        _ => (SentPktState::Acked { nframes, sent_time, expire_time }, nframes),
-    };
-    (st, Rec { kind, nframes: nf, expire: expire_time, retran: retran_time })
+fn any_secs(sym: bool, dflt: u64) -> u64 {
+    if sym {
+        let s: u64 = kani::any();
+        kani::assume(s < T_MAX);
+        s
+    } else {
+        dflt
+    }
 }
 
-/// A journal with exactly N packet records satisfying K; returns the harness-side description and
-/// `starts[i]` = queue position of the first frame of record i (`starts[N]` = queue length).
-fn any_journal<const N: usize, const N1: usize>() -> (J, [Rec; N], [usize; N1], u64) {
-    assert!(N1 == N + 1);
+/// A journal with exactly N packet records satisfying K. `want[i]` fixes the kind of record i
+/// (ANY: symbolic); nframes is symbolic in 0..=2 for every non-Skipped record (real histories only
+/// create Flighting records with >= 1 frame; 0 is a harmless generalisation). `off`: window offset
+/// (None: symbolic 62-bit). `sym_time`: expiry / retransmission instants symbolic (else constants).
+fn any_journal<const N: usize>(want: [u8; N], off: Option<u64>, sym_time: bool) -> (J, Pre<N>, u64) {
     let mut j = J::default();
-    let dummy = Rec { kind: SKIPPED, nframes: 0, expire: mk_instant(0), retran: mk_instant(0) };
-    let mut recs = [dummy; N];
-    let mut starts = [0usize; N1];
-    let mut total = 0usize;
+    let mut pre = Pre { kinds: [SKIPPED; N], nfr: [0; N], starts: [0; N], total: 0, expire: [0; N], retran: [0; N] };
     let mut i = 0;
     while i < N {
-        let (st, r) = any_rec();
-        recs[i] = r;
-        starts[i] = total;
-        // pushed at the concrete offset 0: IndexDeque::push_back's limit test is decided during
-        // symbolic execution; the window is moved to its symbolic position afterwards
+        let kind: u8 = if want[i] == ANY { kani::any() } else { want[i] };
+        kani::assume(kind < 4);
+        let nframes: usize = kani::any();
+        kani::assume(nframes <= MAXF);
+        let exp = any_secs(sym_time, 9);
+        let ret = any_secs(sym_time, 7);
+        let sent_time = mk_instant(5);
+        let expire_time = mk_instant(exp);
+        let retran_time = mk_instant(ret);
+        let (st, nf) = match kind {
+            SKIPPED => (SentPktState::Skipped, 0),
+            FLIGHTING => (SentPktState::Flighting { nframes, sent_time, expire_time, retran_time }, nframes),
+            RETRANS => (SentPktState::Retransmitted { nframes, sent_time, expire_time }, nframes),
+            _ => (SentPktState::Acked { nframes, sent_time, expire_time }, nframes),
+        };
+        pre.kinds[i] = kind;
+        pre.nfr[i] = nf;
+        pre.starts[i] = pre.total;
+        pre.expire[i] = exp;
+        pre.retran[i] = ret;
+        // pushed at offset 0: IndexDeque::push_back's limit test is decided during symbolic
+        // execution; the window is moved to its position afterwards
         j.sent_packets.push_back(st).unwrap();
         let mut f = 0;
         while f < MAXF {
-            if f < r.nframes {
-                j.queue.push_back(TAG0 + (total + f) as u64);
+            if f < nf {
+                j.queue.push_back(TAG0 + (pre.total + f) as u64);
             }
             f += 1;
         }
-        total += r.nframes;
+        pre.total += nf;
         i += 1;
     }
-    starts[N] = total;
-    let off: u64 = kani::any();
-    kani::assume(off < M62 - 16);
+    let off = match off {
+        Some(o) => o,
+        None => {
+            let o: u64 = kani::any();
+            kani::assume(o < M62 - 16);
+            o
+        }
+    };
     j.sent_packets.reset_offset(off);
     let la: u64 = kani::any();
     kani::assume(la <= off + N as u64); // largest acked never beyond what was sent (update_largest)
     j.largest_acked_pktno = la;
-    (j, recs, starts, off)
+    (j, pre, off)
 }
 
-/// Invariant K + the frame queue still holds the identity tags from `first_tag` on.
-fn check_inv(j: &J, first_pos: usize) {
+/// Post-state check, walking the records front to back (concrete positions):
+///  * the window starts at off + dropped and holds the records dropped.. of the pre-state,
+///    unchanged except record `changed.0`, whose kind is now `changed.1` (same nframes);
+///  * invariant K: queue.len() == sum of nframes;
+///  * the frame queue still holds the identity tags, starting with the first frame of the first
+///    kept record (alignment).
+fn check_post<const N: usize>(j: &J, pre: &Pre<N>, off: u64, dropped: usize, changed: Option<(usize, u8)>) {
+    assert!(j.sent_packets.offset() == off + dropped as u64, "window offset");
+    assert!(j.sent_packets.len() == N - dropped, "number of packet records");
     let mut sum = 0usize;
-    let n = j.sent_packets.len();
-    let mut i = 0;
-    while i < n {
-        sum += j.sent_packets.get(j.sent_packets.offset() + i as u64).unwrap().nframes();
-        i += 1;
+    let mut k = 0usize;
+    for (pn, s) in j.sent_packets.enumerate() {
+        let i = dropped + k;
+        assert!(pn == off + i as u64);
+        assert!(i < N);
+        let want_kind = match changed {
+            Some((c, kind)) if c == i => kind,
+            _ => pre.kinds[i],
+        };
+        assert!(kind_of(s) == want_kind, "record kind");
+        assert!(s.nframes() == pre.nfr[i], "a record keeps its frame count (alignment of later packets)");
+        match s {
+            SentPktState::Retransmitted { expire_time, .. } | SentPktState::Acked { expire_time, .. } => {
+                assert!(*expire_time == mk_instant(pre.expire[i]), "expiry time carried over");
+            }
+            _ => {}
+        }
+        sum += s.nframes();
+        k += 1;
     }
     assert!(j.queue.len() == sum, "K: queue.len() == sum of nframes");
+    let first_pos = pre.start_of(dropped);
     let p: usize = kani::any();
-    kani::assume(p < j.queue.len());
-    assert!(*j.queue.get(p).unwrap() == TAG0 + (first_pos + p) as u64, "frame queue content/alignment unchanged");
-}
-
-fn rec_index<const N: usize>(off: u64, pn: u64) -> Option<usize> {
-    if pn >= off && pn - off < N as u64 { Some((pn - off) as usize) } else { None }
+    if p < j.queue.len() {
+        assert!(*j.queue.get(p).unwrap() == TAG0 + (first_pos + p) as u64, "frame queue content / alignment");
+    }
 }
 
 /// Drains `it` (at most MAXF + 1 items) and asserts it yields exactly the tags
@@ -180,353 +227,231 @@ fn expect_tags(mut it: impl Iterator<Item = u64>, start: usize, count: usize) {
     }
 }
 
-/// All records other than `except` are exactly what they were.
-fn others_unchanged<const N: usize>(j: &J, recs: &[Rec; N], off: u64, except: Option<usize>) {
-    assert!(j.sent_packets.offset() == off && j.sent_packets.len() == N, "the window is not restructured");
-    let mut i = 0;
-    while i < N {
-        if Some(i) != except {
-            let s = j.sent_packets.get(off + i as u64).unwrap();
-            assert!(kind_of(s) == recs[i].kind && s.nframes() == recs[i].nframes, "other packet records untouched");
-        }
-        i += 1;
-    }
-}
-
 // ---- on_packet_acked ---------------------------------------------------------------------------
-fn ack_step<const N: usize, const N1: usize>() {
-    let (mut j, recs, starts, off) = any_journal::<N, N1>();
+/// ACK of record I of an N-record window.
+fn ack_in<const N: usize, const I: usize>() {
+    let (mut j, pre, off) = any_journal::<N>([ANY; N], Some(OFF), false);
     let la = j.largest_acked_pktno;
-    let pn: u64 = kani::any();
-    let idx = rec_index::<N>(off, pn);
-    let (start, count, kind) = match idx {
-        Some(i) => (
-            starts[i],
-            if recs[i].kind == FLIGHTING || recs[i].kind == RETRANS { recs[i].nframes } else { 0 },
-            recs[i].kind,
-        ),
-        None => (0, 0, SKIPPED),
-    };
+    let pn = off + I as u64;
+    let start = pre.starts[I];
+    let count = pre.live_frames(I);
+    let kind = pre.kinds[I];
 
     expect_tags(j.on_packet_acked(pn), start, count);
 
-    others_unchanged(&j, &recs, off, idx);
-    if let Some(i) = idx {
-        let s = j.sent_packets.get(pn).unwrap();
-        assert!(s.nframes() == recs[i].nframes, "the record keeps its frame count (alignment of later packets)");
-        let want = if kind == SKIPPED { SKIPPED } else { ACKED };
-        assert!(kind_of(s) == want, "an in-flight / retransmitted packet becomes Acked; Skipped stays Skipped");
-        if let SentPktState::Acked { expire_time, .. } = s {
-            assert!(*expire_time == recs[i].expire);
-        }
-    }
+    // an in-flight / retransmitted packet becomes Acked; Skipped stays Skipped; nothing else moves
+    let want = if kind == SKIPPED { SKIPPED } else { ACKED };
+    check_post(&j, &pre, off, 0, Some((I, want)));
     assert!(j.largest_acked_pktno == la);
-    check_inv(&j, 0);
 
-    // once each: acknowledging the same number again reports nothing
+    // once each: acknowledging the same number again reports nothing,
+    // and a loss report after the ack reports nothing either
     expect_tags(j.on_packet_acked(pn), start, 0);
-    others_unchanged(&j, &recs, off, idx);
-    check_inv(&j, 0);
+    expect_tags(j.may_loss_packet(pn), start, 0);
+    check_post(&j, &pre, off, 0, Some((I, want)));
 
-    kani::cover!(N == 0 || (count == 2 && start > 0), "two frames of a later packet delivered");
-    kani::cover!(N == 0 || (idx.is_some() && kind == ACKED && recs[idx.unwrap()].nframes > 0), "duplicate ack of an acked packet");
-    kani::cover!(N == 0 || (idx.is_some() && kind == RETRANS && count > 0), "ack after the packet was declared lost");
-    kani::cover!(pn < off, "ack of a number below the window");
-    kani::cover!(pn >= off + N as u64, "ack of a number beyond the window");
+    kani::cover!(count == 2 && (I == 0 || start > 1), "two frames delivered (behind earlier frames)");
+    kani::cover!(kind == ACKED && pre.nfr[I] > 0, "duplicate ack of an acked packet");
+    kani::cover!(kind == RETRANS && count > 0, "ack after the packet was declared lost");
+    kani::cover!(kind == SKIPPED, "ack of a skipped number");
     core::mem::forget(j);
 }
 
-#[kani::proof]
-#[kani::unwind(8)]
-fn c10_sent_ack_step_n0() {
-    ack_step::<0, 1>();
+/// ACK / loss report of numbers outside the window: nothing reported, nothing changed.
+fn ack_loss_outside<const N: usize>() {
+    let (mut j, pre, off) = any_journal::<N>([ANY; N], Some(OFF), false);
+    expect_tags(j.on_packet_acked(off - 1), 0, 0);
+    expect_tags(j.on_packet_acked(off + N as u64), 0, 0);
+    expect_tags(j.on_packet_acked(off + N as u64 + 7), 0, 0);
+    expect_tags(j.may_loss_packet(off - 1), 0, 0);
+    expect_tags(j.may_loss_packet(off + N as u64), 0, 0);
+    expect_tags(j.on_packet_acked(0), 0, 0);
+    check_post(&j, &pre, off, 0, None);
+    kani::cover!(pre.total == 2 * N, "full frame queue");
+    core::mem::forget(j);
 }
 
-#[kani::proof]
-#[kani::unwind(8)]
-fn c10_sent_ack_step_n1() {
-    ack_step::<1, 2>();
+macro_rules! sent_harness {
+    ($name:ident, $body:expr) => {
+        #[kani::proof]
+        #[kani::unwind(8)]
+        fn $name() {
+            $body;
+        }
+    };
 }
 
-#[kani::proof]
-#[kani::unwind(8)]
-fn c10_sent_ack_step_n2() {
-    ack_step::<2, 3>();
-}
+sent_harness!(c10_sent_ack_step_n1_p0, ack_in::<1, 0>());
+sent_harness!(c10_sent_ack_step_n2_p1, ack_in::<2, 1>());
+sent_harness!(c10_sent_ack_step_n3_p0, ack_in::<3, 0>());
+sent_harness!(c10_sent_ack_step_n3_p1, ack_in::<3, 1>());
+sent_harness!(c10_sent_ack_step_n3_p2, ack_in::<3, 2>());
+sent_harness!(c10_sent_outside_n0, ack_loss_outside::<0>());
+sent_harness!(c10_sent_outside_n3, ack_loss_outside::<3>());
 
+/// One record, symbolic 62-bit window offset and symbolic packet number (inside, below, beyond).
 #[kani::proof]
 #[kani::unwind(8)]
-fn c10_sent_ack_step_n3() {
-    ack_step::<3, 4>();
+fn c10_sent_ack_step_sym_n1() {
+    let (mut j, pre, off) = any_journal::<1>([ANY], None, false);
+    let pn: u64 = kani::any();
+    let inside = pn == off;
+    let (start, count) = if inside { (0, pre.live_frames(0)) } else { (0, 0) };
+    expect_tags(j.on_packet_acked(pn), start, count);
+    let want = if pre.kinds[0] == SKIPPED { SKIPPED } else { ACKED };
+    check_post(&j, &pre, off, 0, if inside { Some((0, want)) } else { None });
+    expect_tags(j.on_packet_acked(pn), start, 0);
+    kani::cover!(inside && count == 2, "two frames delivered");
+    kani::cover!(pn < off, "below the window");
+    kani::cover!(pn > off, "beyond the window");
+    core::mem::forget(j);
 }
 
 // ---- may_loss_packet ---------------------------------------------------------------------------
-fn loss_step<const N: usize, const N1: usize>() {
-    let (mut j, recs, starts, off) = any_journal::<N, N1>();
+fn loss_in<const N: usize, const I: usize>() {
+    let (mut j, pre, off) = any_journal::<N>([ANY; N], Some(OFF), false);
     let la = j.largest_acked_pktno;
-    let pn: u64 = kani::any();
-    let idx = rec_index::<N>(off, pn);
-    let (start, count, kind) = match idx {
-        Some(i) => (
-            starts[i],
-            if recs[i].kind == FLIGHTING || recs[i].kind == RETRANS { recs[i].nframes } else { 0 },
-            recs[i].kind,
-        ),
-        None => (0, 0, SKIPPED),
-    };
+    let pn = off + I as u64;
+    let start = pre.starts[I];
+    let count = pre.live_frames(I);
+    let kind = pre.kinds[I];
 
     expect_tags(j.may_loss_packet(pn), start, count);
 
-    others_unchanged(&j, &recs, off, idx);
-    if let Some(i) = idx {
-        let s = j.sent_packets.get(pn).unwrap();
-        assert!(s.nframes() == recs[i].nframes);
-        let want = if kind == FLIGHTING { RETRANS } else { kind };
-        assert!(kind_of(s) == want, "in-flight becomes Retransmitted; Acked / Skipped / Retransmitted stay");
-        if let SentPktState::Retransmitted { expire_time, .. } = s {
-            assert!(*expire_time == recs[i].expire);
-        }
-    }
+    // in-flight becomes Retransmitted; Acked / Skipped / Retransmitted stay
+    let want = if kind == FLIGHTING { RETRANS } else { kind };
+    check_post(&j, &pre, off, 0, Some((I, want)));
     assert!(j.largest_acked_pktno == la);
-    check_inv(&j, 0);
 
     // a late ACK of a packet declared lost still reports its frames as delivered — exactly once
     expect_tags(j.on_packet_acked(pn), start, count);
     expect_tags(j.on_packet_acked(pn), start, 0);
-    // and a loss report after the ack reports nothing
-    expect_tags(j.may_loss_packet(pn), start, 0);
-    check_inv(&j, 0);
+    let want2 = if kind == SKIPPED { SKIPPED } else { ACKED };
+    check_post(&j, &pre, off, 0, Some((I, want2)));
 
-    kani::cover!(N == 0 || (count == 2 && start > 0 && kind == FLIGHTING), "two frames of a later in-flight packet reported lost");
-    kani::cover!(N == 0 || (idx.is_some() && kind == ACKED && recs[idx.unwrap()].nframes > 0), "loss report for an acked packet: nothing");
-    kani::cover!(pn >= off + N as u64, "loss report beyond the window");
+    kani::cover!(count == 2 && kind == FLIGHTING && (I == 0 || start > 1), "two frames of an in-flight packet reported lost");
+    kani::cover!(kind == ACKED && pre.nfr[I] > 0, "loss report for an acked packet: nothing");
+    kani::cover!(kind == RETRANS && count > 0, "repeated loss report: frames offered again");
     core::mem::forget(j);
 }
 
-#[kani::proof]
-#[kani::unwind(8)]
-fn c10_sent_loss_step_n1() {
-    loss_step::<1, 2>();
-}
-
-#[kani::proof]
-#[kani::unwind(8)]
-fn c10_sent_loss_step_n2() {
-    loss_step::<2, 3>();
-}
-
-#[kani::proof]
-#[kani::unwind(8)]
-fn c10_sent_loss_step_n3() {
-    loss_step::<3, 4>();
-}
+sent_harness!(c10_sent_loss_step_n1_p0, loss_in::<1, 0>());
+sent_harness!(c10_sent_loss_step_n3_p0, loss_in::<3, 0>());
+sent_harness!(c10_sent_loss_step_n3_p1, loss_in::<3, 1>());
+sent_harness!(c10_sent_loss_step_n3_p2, loss_in::<3, 2>());
 
 // ---- resize (expiry; runs when the SentRotateGuard is dropped) -----------------------------------
 /// May record i be forgotten at time `now`? (Skipped / Acked: yes; in flight: never; declared lost:
 /// once its expire time has passed.)
-fn droppable(r: &Rec, now: Instant) -> bool {
-    match r.kind {
+fn droppable<const N: usize>(pre: &Pre<N>, i: usize, now: u64) -> bool {
+    match pre.kinds[i] {
         SKIPPED | ACKED => true,
         FLIGHTING => false,
-        _ => !(r.expire > now),
+        _ => !(pre.expire[i] > now),
     }
 }
 
-fn resize_step<const N: usize, const N1: usize>() {
-    let (mut j, recs, starts, off) = any_journal::<N, N1>();
-    let now = set_any_now();
-    let mut expect = 0;
-    while expect < N && droppable(&recs[expect], now) {
-        expect += 1;
+fn droppable_prefix<const N: usize>(pre: &Pre<N>, now: u64) -> usize {
+    let mut n = 0;
+    while n < N && droppable(pre, n, now) {
+        n += 1;
     }
+    n
+}
+
+fn set_any_now() -> u64 {
+    let s: u64 = kani::any();
+    kani::assume(s < T_MAX);
+    unsafe { NOW_SECS = s };
+    s
+}
+
+fn resize_step<const N: usize>() {
+    let (mut j, pre, off) = any_journal::<N>([ANY; N], Some(OFF), true);
+    let now = set_any_now();
+    let expect = droppable_prefix(&pre, now);
 
     j.resize();
 
-    assert!(j.sent_packets.offset() == off + expect as u64, "exactly the droppable prefix of packet records is removed");
-    assert!(j.sent_packets.len() == N - expect);
-    let mut i = 0;
-    while i < N {
-        if i >= expect {
-            let s = j.sent_packets.get(off + i as u64).unwrap();
-            assert!(kind_of(s) == recs[i].kind && s.nframes() == recs[i].nframes, "kept records untouched");
-        }
-        i += 1;
-    }
-    // exactly the frames of the dropped packets leave the queue: the first remaining frame is the
-    // first frame of the first kept packet (alignment preserved)
-    check_inv(&j, starts[expect]);
+    // exactly the droppable prefix of packet records is removed, and exactly their frames leave
+    // the queue (check_post: the first remaining frame is the first frame of the first kept packet)
+    check_post(&j, &pre, off, expect, None);
 
-    kani::cover!(N == 0 || (expect == N && starts[N] > 2), "whole window (with frames) dropped");
-    kani::cover!(N < 2 || (expect == 1 && recs[0].kind == RETRANS && recs[0].nframes > 0 && recs[1].nframes > 0), "expired lost packet dropped, next one kept");
-    kani::cover!(N == 0 || (expect == 0 && recs[0].kind == RETRANS), "lost packet not yet expired is kept");
+    kani::cover!(N == 0 || (expect == N && pre.total > 2), "whole window (with frames) dropped");
+    kani::cover!(N < 2 || (expect == 1 && pre.kinds[0] == RETRANS && pre.nfr[0] > 0 && pre.nfr[1] > 0), "expired lost packet dropped, next one kept");
+    kani::cover!(N == 0 || (expect == 0 && pre.kinds[0] == RETRANS), "lost packet not yet expired is kept");
     core::mem::forget(j);
 }
 
-#[kani::proof]
-#[kani::unwind(8)]
-#[kani::stub(tokio::time::Instant::now, stub_now)]
-#[kani::stub(tracing::callsite::DefaultCallsite::interest, stub_tr_interest)]
-#[kani::stub(tracing::__macro_support::__is_enabled, stub_tr_enabled)]
-#[kani::stub(tracing::Event::dispatch, stub_tr_dispatch)]
-fn c10_sent_resize_n2() {
-    resize_step::<2, 3>();
-}
-
-#[kani::proof]
-#[kani::unwind(8)]
-#[kani::stub(tokio::time::Instant::now, stub_now)]
-#[kani::stub(tracing::callsite::DefaultCallsite::interest, stub_tr_interest)]
-#[kani::stub(tracing::__macro_support::__is_enabled, stub_tr_enabled)]
-#[kani::stub(tracing::Event::dispatch, stub_tr_dispatch)]
-fn c10_sent_resize_n3() {
-    resize_step::<3, 4>();
-}
-
-// ---- ack of a packet after the window moved: frame offsets follow the window ---------------------
-/// resize then on_packet_acked: the frame-offset arithmetic (sum of nframes in front of pn) stays
-/// aligned with the queue after a prefix was dropped.
-#[kani::proof]
-#[kani::unwind(8)]
-#[kani::stub(tokio::time::Instant::now, stub_now)]
-#[kani::stub(tracing::callsite::DefaultCallsite::interest, stub_tr_interest)]
-#[kani::stub(tracing::__macro_support::__is_enabled, stub_tr_enabled)]
-#[kani::stub(tracing::Event::dispatch, stub_tr_dispatch)]
-fn c10_sent_resize_then_ack_n3() {
-    const N: usize = 3;
-    let (mut j, recs, starts, off) = any_journal::<N, 4>();
-    let now = set_any_now();
-    let mut dropped = 0;
-    while dropped < N && droppable(&recs[dropped], now) {
-        dropped += 1;
-    }
-    j.resize();
-    let pn: u64 = kani::any();
-    let idx = rec_index::<N>(off, pn);
-    let (start, count) = match idx {
-        Some(i) if i >= dropped && (recs[i].kind == FLIGHTING || recs[i].kind == RETRANS) => (starts[i], recs[i].nframes),
-        _ => (0, 0),
+macro_rules! sent_harness_clock {
+    ($name:ident, $body:expr) => {
+        #[kani::proof]
+        #[kani::unwind(8)]
+        #[kani::stub(tokio::time::Instant::now, stub_now)]
+        #[kani::stub(tracing::callsite::DefaultCallsite::interest, stub_tr_interest)]
+        #[kani::stub(tracing::__macro_support::__is_enabled, stub_tr_enabled)]
+        #[kani::stub(tracing::Event::dispatch, stub_tr_dispatch)]
+        fn $name() {
+            $body;
+        }
     };
+}
+
+sent_harness_clock!(c10_sent_resize_n0, resize_step::<0>());
+sent_harness_clock!(c10_sent_resize_n2, resize_step::<2>());
+sent_harness_clock!(c10_sent_resize_n3, resize_step::<3>());
+
+/// resize, then ACKs: the frame-offset arithmetic (sum of nframes in front of pn) stays aligned
+/// with the queue after a prefix (with a symbolic number of frames) was dropped.
+/// Shape: [Acked, Flighting, any] -> exactly the first record is dropped (kinds concrete so that
+/// the new window offset stays concrete, see the note at the top).
+fn resize_then_ack() {
+    const N: usize = 3;
+    let (mut j, pre, off) = any_journal::<N>([ACKED, FLIGHTING, ANY], Some(OFF), true);
+    let now = set_any_now();
+    j.resize();
+    check_post(&j, &pre, off, 1, None);
     // tags are absolute: a frame keeps its tag when the queue is drained in front of it
-    expect_tags(j.on_packet_acked(pn), start, count);
-    check_inv(&j, starts[dropped]);
-    kani::cover!(dropped == 1 && starts[1] > 0 && count > 0 && idx == Some(2), "ack of the last packet after the first one (with frames) was dropped");
-    kani::cover!(idx.is_some() && idx.unwrap() < dropped && recs[idx.unwrap()].kind == RETRANS, "ack of an expired packet: nothing");
+    expect_tags(j.on_packet_acked(off + 2), pre.starts[2], pre.live_frames(2));
+    expect_tags(j.on_packet_acked(off + 1), pre.starts[1], pre.nfr[1]);
+    // the dropped number: nothing
+    expect_tags(j.on_packet_acked(off), 0, 0);
+    let k2 = if pre.kinds[2] == SKIPPED { SKIPPED } else { ACKED };
+    assert!(kind_of(j.sent_packets.get(off + 2).unwrap()) == k2);
+    assert!(kind_of(j.sent_packets.get(off + 1).unwrap()) == ACKED);
+    // a second rotation now forgets the acked packets as well
+    j.resize();
+    let mut pre2 = pre;
+    pre2.kinds[1] = ACKED;
+    pre2.kinds[2] = k2;
+    check_post(&j, &pre2, off, droppable_prefix(&pre2, now), None);
+    kani::cover!(pre.nfr[0] == 2 && pre.nfr[1] == 1 && pre.live_frames(2) == 2, "ack behind a dropped packet with frames");
     core::mem::forget(j);
 }
 
-// ---- update_largest ----------------------------------------------------------------------------
-fn stub_mutex_lock<T: ?Sized>(m: &std::sync::Mutex<T>) -> std::sync::LockResult<std::sync::MutexGuard<'_, T>> {
-    match m.try_lock() {
-        Ok(g) => Ok(g),
-        Err(std::sync::TryLockError::Poisoned(p)) => Err(p),
-        Err(std::sync::TryLockError::WouldBlock) => panic!("self-deadlock: mutex already held"),
-    }
-}
-
-/// Through the public wrappers: ArcSentJournal::rotate -> SentRotateGuard::{update_largest,
-/// on_packet_acked, may_loss_packet} -> drop (resize).
-#[kani::proof]
-#[kani::unwind(8)]
-#[kani::stub(std::sync::Mutex::lock, stub_mutex_lock)]
-#[kani::stub(tokio::time::Instant::now, stub_now)]
-#[kani::stub(tracing::callsite::DefaultCallsite::interest, stub_tr_interest)]
-#[kani::stub(tracing::__macro_support::__is_enabled, stub_tr_enabled)]
-#[kani::stub(tracing::Event::dispatch, stub_tr_dispatch)]
-fn c10_sent_rotate_guard_n2() {
-    const N: usize = 2;
-    let (j, recs, starts, off) = any_journal::<N, 3>();
-    let la = j.largest_acked_pktno;
-    let now = set_any_now();
-    let arc = ArcSentJournal(Arc::new(Mutex::new(j)));
-    let largest: u64 = kani::any();
-    kani::assume(largest < M62);
-    let frame = AckFrame::new(
-        qbase::varint::VarInt::from_u64(largest).unwrap(),
-        qbase::varint::VarInt::from_u32(0),
-        qbase::varint::VarInt::from_u32(0),
-        Vec::new(),
-        None,
-    );
-    let next = off + N as u64; // next packet number to be sent
-    let mut dropped = 0;
-    {
-        let mut guard = arc.rotate();
-        let res = guard.update_largest(&frame);
-        let ok = match &res {
-            Ok(()) => true,
-            Err(e) => {
-                assert!(e.kind() == ErrorKind::ProtocolViolation);
-                false
-            }
-        };
-        core::mem::forget(res);
-        if largest < next {
-            assert!(ok, "an ACK of a number that was sent is never rejected");
-        }
-        if largest > next {
-            assert!(!ok, "an ACK beyond the next number to send is a protocol violation");
-        }
-        // (largest == next, the next UNSENT number, is C04's subject; nothing is asserted here)
-        let la_after = guard.inner.largest_acked_pktno;
-        assert!(la_after == if ok && largest > la { largest } else { la }, "largest acked only grows, only on accepted frames");
-        if ok {
-            let idx = rec_index::<N>(off, largest);
-            let (start, count) = match idx {
-                Some(i) if recs[i].kind == FLIGHTING || recs[i].kind == RETRANS => (starts[i], recs[i].nframes),
-                _ => (0, 0),
-            };
-            expect_tags(guard.on_packet_acked(largest), start, count);
-            // the record is Acked now: the guard's drop may forget a longer prefix
-            let mut recs2 = recs;
-            if let Some(i) = idx {
-                if recs2[i].kind != SKIPPED {
-                    recs2[i].kind = ACKED;
-                }
-            }
-            while dropped < N && droppable(&recs2[dropped], now) {
-                dropped += 1;
-            }
-            kani::cover!(count > 0, "frames delivered through the guard");
-        } else {
-            while dropped < N && droppable(&recs[dropped], now) {
-                dropped += 1;
-            }
-        }
-        kani::cover!(!ok, "frame rejected");
-        // guard dropped here: resize()
-    }
-    let g = arc.0.try_lock().unwrap();
-    assert!(g.sent_packets.offset() == off + dropped as u64 && g.sent_packets.len() == N - dropped, "drop of the guard forgets exactly the droppable prefix");
-    check_inv(&g, starts[dropped]);
-    kani::cover!(dropped == N, "window emptied by the guard's drop");
-    core::mem::forget(g);
-    core::mem::forget(arc);
-}
+sent_harness_clock!(c10_sent_resize_then_ack_n3, resize_then_ack());
 
 // ---- fast_retransmit ---------------------------------------------------------------------------
 /// fast_retransmit (after its own resize): every in-flight packet below the largest acknowledged
 /// number whose retransmission time has passed is declared lost and its frames are reported, in
 /// order, once; nothing else is reported.
-fn fast_retransmit_step<const N: usize, const N1: usize, const MAXOUT: usize>() {
-    let (mut j, recs, starts, off) = any_journal::<N, N1>();
+fn fast_retransmit_step<const N: usize, const MAXOUT: usize>() {
+    let (mut j, pre, off) = any_journal::<N>([ANY; N], Some(OFF), true);
     let la = j.largest_acked_pktno;
     let now = set_any_now();
-    let mut dropped = 0;
-    while dropped < N && droppable(&recs[dropped], now) {
-        dropped += 1;
-    }
+    let dropped = droppable_prefix(&pre, now);
     // expected tags, in order
     let mut want = [0u64; MAXOUT];
     let mut nwant = 0usize;
     let mut fired = [false; N];
     let mut i = 0;
     while i < N {
-        if i >= dropped && off + (i as u64) < la && recs[i].kind == FLIGHTING && recs[i].retran < now {
+        if i >= dropped && off + (i as u64) < la && pre.kinds[i] == FLIGHTING && pre.retran[i] < now {
             fired[i] = true;
             let mut f = 0;
             while f < MAXF {
-                if f < recs[i].nframes {
-                    want[nwant] = TAG0 + (starts[i] + f) as u64;
+                if f < pre.nfr[i] {
+                    want[nwant] = TAG0 + (pre.starts[i] + f) as u64;
                     nwant += 1;
                 }
                 f += 1;
@@ -548,61 +473,123 @@ fn fast_retransmit_step<const N: usize, const N1: usize, const MAXOUT: usize>() 
             k += 1;
         }
     }
-    assert!(j.sent_packets.offset() == off + dropped as u64 && j.sent_packets.len() == N - dropped);
+    // timed-out packets become Retransmitted, others untouched
+    let mut post = pre;
     let mut i = 0;
     while i < N {
-        if i >= dropped {
-            let s = j.sent_packets.get(off + i as u64).unwrap();
-            let want_kind = if fired[i] { RETRANS } else { recs[i].kind };
-            assert!(kind_of(s) == want_kind && s.nframes() == recs[i].nframes, "timed-out packets become Retransmitted, others untouched");
+        if fired[i] {
+            post.kinds[i] = RETRANS;
         }
         i += 1;
     }
-    check_inv(&j, starts[dropped]);
+    check_post(&j, &post, off, dropped, None);
     kani::cover!(N == 0 || nwant >= 2, "at least two frames retransmitted");
-    kani::cover!(N < 2 || (fired[N - 1] && dropped > 0 && starts[dropped] > 0), "retransmission behind a dropped prefix with frames");
-    kani::cover!(N < 2 || (recs[1].kind == FLIGHTING && recs[1].retran < now && !fired[1] && dropped <= 1), "timed-out packet not below the largest acked: not retransmitted");
+    kani::cover!(N < 2 || (fired[N - 1] && dropped > 0 && pre.start_of(dropped) > 0), "retransmission behind a dropped prefix with frames");
+    kani::cover!(N < 2 || (pre.kinds[1] == FLIGHTING && pre.retran[1] < now && !fired[1] && dropped <= 1), "timed-out packet not below the largest acked: not retransmitted");
     core::mem::forget(j);
 }
 
+sent_harness_clock!(c10_sent_fast_retransmit_n2, fast_retransmit_step::<2, 4>());
+sent_harness_clock!(c10_sent_fast_retransmit_n3, fast_retransmit_step::<3, 6>());
+
+// ---- the public wrappers -----------------------------------------------------------------------
+fn stub_mutex_lock<T: ?Sized>(m: &std::sync::Mutex<T>) -> std::sync::LockResult<std::sync::MutexGuard<'_, T>> {
+    match m.try_lock() {
+        Ok(g) => Ok(g),
+        Err(std::sync::TryLockError::Poisoned(p)) => Err(p),
+        Err(std::sync::TryLockError::WouldBlock) => panic!("self-deadlock: mutex already held"),
+    }
+}
+
+/// ArcSentJournal::rotate -> SentRotateGuard::{update_largest, on_packet_acked, may_loss_packet}
+/// -> drop (resize). `largest` of the ACK frame is symbolic (full width); the acknowledged number
+/// handed to on_packet_acked is record 1.
 #[kani::proof]
 #[kani::unwind(8)]
+#[kani::stub(std::sync::Mutex::lock, stub_mutex_lock)]
 #[kani::stub(tokio::time::Instant::now, stub_now)]
 #[kani::stub(tracing::callsite::DefaultCallsite::interest, stub_tr_interest)]
 #[kani::stub(tracing::__macro_support::__is_enabled, stub_tr_enabled)]
 #[kani::stub(tracing::Event::dispatch, stub_tr_dispatch)]
-fn c10_sent_fast_retransmit_n2() {
-    fast_retransmit_step::<2, 3, 4>();
+fn c10_sent_rotate_guard_n2() {
+    const N: usize = 2;
+    let (j, pre, off) = any_journal::<N>([ANY; N], Some(OFF), true);
+    let la = j.largest_acked_pktno;
+    let now = set_any_now();
+    let arc = ArcSentJournal(Arc::new(Mutex::new(j)));
+    let largest: u64 = kani::any();
+    kani::assume(largest < M62);
+    let frame = AckFrame::new(
+        qbase::varint::VarInt::from_u64(largest).unwrap(),
+        qbase::varint::VarInt::from_u32(0),
+        qbase::varint::VarInt::from_u32(0),
+        Vec::new(),
+        None,
+    );
+    let next = off + N as u64; // next packet number to be sent
+    let mut post = Pre { kinds: pre.kinds, nfr: pre.nfr, starts: pre.starts, total: pre.total, expire: pre.expire, retran: pre.retran };
+    {
+        let mut guard = arc.rotate();
+        let res = guard.update_largest(&frame);
+        let ok = match &res {
+            Ok(()) => true,
+            Err(e) => {
+                assert!(e.kind() == ErrorKind::ProtocolViolation);
+                false
+            }
+        };
+        core::mem::forget(res);
+        if largest < next {
+            assert!(ok, "an ACK of a number that was sent is never rejected");
+        }
+        if largest > next {
+            assert!(!ok, "an ACK beyond the next number to send is a protocol violation");
+        }
+        // (largest == next, the next UNSENT number, is C04's subject; nothing is asserted here)
+        let la_after = guard.inner.largest_acked_pktno;
+        assert!(la_after == if ok && largest > la { largest } else { la }, "largest acked only grows, only on accepted frames");
+        if ok {
+            expect_tags(guard.on_packet_acked(off + 1), pre.starts[1], pre.live_frames(1));
+            if post.kinds[1] != SKIPPED {
+                post.kinds[1] = ACKED;
+            }
+            expect_tags(guard.may_loss_packet(off), pre.starts[0], pre.live_frames(0));
+            if post.kinds[0] == FLIGHTING {
+                post.kinds[0] = RETRANS;
+            }
+            kani::cover!(pre.live_frames(1) > 0, "frames delivered through the guard");
+        }
+        kani::cover!(!ok, "frame rejected");
+        // guard dropped here: resize()
+    }
+    let dropped = droppable_prefix(&post, now);
+    let g = arc.0.try_lock().unwrap();
+    // drop of the guard forgets exactly the droppable prefix
+    check_post(&g, &post, off, dropped, None);
+    kani::cover!(dropped == N, "window emptied by the guard's drop");
+    core::mem::forget(g);
+    core::mem::forget(arc);
 }
 
-#[kani::proof]
-#[kani::unwind(8)]
-#[kani::stub(tokio::time::Instant::now, stub_now)]
-#[kani::stub(tracing::callsite::DefaultCallsite::interest, stub_tr_interest)]
-#[kani::stub(tracing::__macro_support::__is_enabled, stub_tr_enabled)]
-#[kani::stub(tracing::Event::dispatch, stub_tr_dispatch)]
-fn c10_sent_fast_retransmit_n3() {
-    fast_retransmit_step::<3, 4, 6>();
-}
-
-// ---- NewPacketGuard: recording a packet establishes K --------------------------------------------
 /// new_packet -> record_frame x k -> (record_trivial) -> build_with_time: the packet number handed
 /// out is offset+len; it is consumed iff something was recorded; the new record carries exactly
-/// the k recorded frames (K preserved), so a later ack of that number reports exactly them.
+/// the k recorded frames (K established), so a later ack of that number reports exactly them.
 #[kani::proof]
 #[kani::unwind(8)]
 #[kani::stub(std::sync::Mutex::lock, stub_mutex_lock)]
 #[kani::stub(tokio::time::Instant::now, stub_now)]
 fn c10_sent_new_packet_n2() {
     const N: usize = 2;
-    let (j, recs, starts, off) = any_journal::<N, 3>();
-    // PacketNumber::encode's documented precondition (pn - largest_acked < 2^31) holds: N <= 2
+    let (j, pre, off) = any_journal::<N>([ANY; N], Some(OFF), false);
+    // PacketNumber::encode's documented precondition (pn - largest_acked < 2^31)
     kani::assume(j.largest_acked_pktno >= off);
-    let _now = set_any_now();
+    unsafe { NOW_SECS = 100 };
     let arc = ArcSentJournal(Arc::new(Mutex::new(j)));
     let k: usize = kani::any();
     kani::assume(k <= 2);
     let trivial: bool = kani::any();
+    let retran_ms: u16 = kani::any();
+    let expire_ms: u16 = kani::any();
     {
         let mut g = arc.new_packet();
         let (pn, _enc) = g.pn();
@@ -610,7 +597,7 @@ fn c10_sent_new_packet_n2() {
         let mut f = 0;
         while f < 2 {
             if f < k {
-                g.record_frame(TAG0 + (starts[N] + f) as u64);
+                g.record_frame(TAG0 + (pre.total + f) as u64);
             }
             f += 1;
         }
@@ -619,27 +606,32 @@ fn c10_sent_new_packet_n2() {
         }
         let (pn2, _) = g.pn();
         assert!(pn2 == pn, "pn() is stable while the packet is assembled");
-        g.build_with_time(Duration::from_millis(kani::any::<u16>() as u64), Duration::from_millis(kani::any::<u16>() as u64));
+        g.build_with_time(Duration::from_millis(retran_ms as u64), Duration::from_millis(expire_ms as u64));
     }
     let mut g = arc.0.try_lock().unwrap();
     let consumed = k > 0 || trivial;
     assert!(g.sent_packets.offset() == off);
     assert!(g.sent_packets.len() == if consumed { N + 1 } else { N }, "the number is consumed iff the packet recorded something");
-    if consumed {
-        let s = g.sent_packets.get(off + N as u64).unwrap();
-        assert!(s.nframes() == k);
-        assert!(kind_of(s) == if k > 0 { FLIGHTING } else { SKIPPED });
+    let mut sum = 0;
+    let mut idx = 0;
+    for (_pn, s) in g.sent_packets.enumerate() {
+        if idx < N {
+            assert!(kind_of(s) == pre.kinds[idx] && s.nframes() == pre.nfr[idx], "earlier records untouched");
+        } else {
+            assert!(s.nframes() == k, "the new record counts exactly the recorded frames");
+            assert!(kind_of(s) == if k > 0 { FLIGHTING } else { SKIPPED });
+            if let SentPktState::Flighting { sent_time, retran_time, expire_time, .. } = s {
+                assert!(*sent_time == mk_instant(100));
+                assert!(*retran_time >= *sent_time && *expire_time >= *sent_time);
+            }
+        }
+        sum += s.nframes();
+        idx += 1;
     }
-    check_inv(&g, 0);
-    let mut i = 0;
-    while i < N {
-        let s = g.sent_packets.get(off + i as u64).unwrap();
-        assert!(kind_of(s) == recs[i].kind && s.nframes() == recs[i].nframes);
-        i += 1;
-    }
+    assert!(g.queue.len() == sum, "K established");
     // a later ACK of the new number reports exactly the frames just recorded
-    expect_tags(g.on_packet_acked(off + N as u64), starts[N], k);
-    kani::cover!(k == 2 && starts[N] > 0, "two frames recorded behind earlier ones");
+    expect_tags(g.on_packet_acked(off + N as u64), pre.total, k);
+    kani::cover!(k == 2 && pre.total > 0, "two frames recorded behind earlier ones");
     kani::cover!(k == 0 && trivial, "trivial packet consumes a number without frames");
     kani::cover!(!consumed, "abandoned packet: number not consumed");
     core::mem::forget(g);
